@@ -117,6 +117,7 @@ def ex_gridded(ctx, case, ratesB, seed=0):
     import csep.core.binomial_evaluations as be
     import csep.core.brier_evaluations as br
     rc = {"exec": "gridded", "args": {"case": case, "ratesB": ratesB, "seed": seed}}
+    ctx.current_case = rc
     tmp = tempfile.mkdtemp(prefix="c18-", dir=os.environ.get("VERIF_TMP", "/var/tmp"))
     try:
         def fresh():
@@ -161,6 +162,7 @@ def ex_catalog_based(ctx, fc, obs_mode="normal", seed=0):
     import csep.core.catalog_evaluations as ce
     from csep.core.catalogs import CSEPCatalog
     rc = {"exec": "catalog_based", "args": {"fc": fc, "obs_mode": obs_mode, "seed": seed}}
+    ctx.current_case = rc
     cfg = {"source": "memory", "filters": False, "spatial": False}
     tmp = tempfile.mkdtemp(prefix="c18c-", dir=os.environ.get("VERIF_TMP", "/var/tmp"))
     try:
@@ -200,6 +202,7 @@ def ex_catalog_based(ctx, fc, obs_mode="normal", seed=0):
 def ex_region(ctx, lat_case, seed=0):
     from csep.core.regions import CartesianGrid2D
     rc = {"exec": "region", "args": {"lat_case": lat_case, "seed": seed}}
+    ctx.current_case = rc
     reg, model, origins = c01.build_region(lat_case)
     ctx.mon("roundtrip:region-dict", 1)
     ok, back, tb = ctx.call(lambda: CartesianGrid2D.from_dict(reg.to_dict()))
